@@ -56,6 +56,8 @@ def patterned_hooks(a):
     from fggs.indices import PatternedTensor, PhysicalAxis
     hooks = {}
     for t, p in a['pat'].items():
+        if p == 'expand':
+            continue        # a stride-0 view cannot be written in place: left alone
         if isinstance(p, (tuple, list)) and p[0] == 'diag3':
             def h(ten, d=p[1]):
                 kA, kB = PhysicalAxis(ten.shape[0]), PhysicalAxis(ten.shape[1])
@@ -88,7 +90,25 @@ def tlc_json(j):
     return j
 
 
-def drive_rt(a):
+def doubled(a):
+    """the abstract grammar after every factor's STORAGE was doubled in place (backed cells only)"""
+    a2 = copy.deepcopy(a)
+    for t in AG.terms_of(a):
+        p = a['pat'].get(t)
+        sh = AG.shape_of(a, t)
+        dbl = lambda x: x if x == INF else 2 * x
+        if p == 'expand':
+            continue        # a stride-0 view cannot be written in place: left alone
+        if isinstance(p, (tuple, list)) and p[0] == 'diag3':
+            n0, n = sh[0], sh[1]
+            a2['w'][t] = [dbl(a['w'][t][(i * n + j) * n + k]) if j == k else a['w'][t][(i * n + j) * n + k]
+                          for i in range(n0) for j in range(n) for k in range(n)]
+        else:
+            a2['w'][t] = [dbl(x) for x in a['w'][t]]
+    return a2
+
+
+def drive_rt(a, history=False):
     import fggs, torch
     from fggs import formats
     c = {'kind': 'rt', 'g': {k: a[k] for k in ('nls', 'els', 'start', 'rules', 'w', 'finite')}, 'out1': 'ok', 'dumps': False,
@@ -96,6 +116,16 @@ def drive_rt(a):
          'tag': ['rt', 'explicit' if all(x != '' for r in a['rules'] for x in r['nid'] + r['eid']) else 'mixed']}
     try:
         g, info = AG.build_fgg(a, 'real', torch.float64, use_rule_ids=True, finite_domains=a['finite'], patterned=patterned_hooks(a))
+        if history:
+            # a HISTORY: serialise once, update every factor's weights in place (what an optimiser step does),
+            # serialise again -- the second object must describe the grammar as it is now
+            formats.fgg_to_json(g)
+            for t in AG.terms_of(a):
+                if a['pat'].get(t) != 'expand':
+                    g.factors[t].weights.physical.mul_(2.)
+            a = doubled(a)
+            c['g'] = {k: a[k] for k in ('nls', 'els', 'start', 'rules', 'w', 'finite')}
+            c['tag'] = c['tag'] + ['after_inplace_update']
         j1 = formats.fgg_to_json(g)
     except Exception as e:  # noqa
         c['out1'] = 'raise:' + type(e).__name__ + ':' + str(e)[:100]
@@ -189,9 +219,28 @@ def drive_weight_specs(seed, n):
         spec = {'physical': phys, 'vaxes': [jax(e) for e in st['vs']], 'default': st['d']}
         if nexp:
             spec['expand'] = [shape[0]]
-        c = {'kind': 'dense', 'st': PT.encode_struct(st), 'out': 'ok', 'rb': PT.encode_struct(st), 'obs': {'shape': [], 'flat': []},
-             'tag': ['json_to_weights', 'expand' if nexp else 'plain']}
+        double = i % 4 == 3
+        if double:
+            # the default dtype is float64 (as under bin/sum_product.py -d) and the values need more than 24 bits:
+            # held exactly (to 1/1000) by a double, moved by several 1/1000 when squeezed through float32
+            fine = [100000.004, 100000.012, 131072.003, 65536.001, 99999.996, 3.0, 0.0]
+            k0 = rng.randrange(len(fine))
+            st['ph'] = [fine[(k0 + q) % len(fine)] for q in range(len(st['ph']))]
+            if nexp:
+                inner = 1
+                for x in shape[1:]:
+                    inner *= x
+                st['ph'] = [st['ph'][q % inner] for q in range(len(st['ph']))] if inner else st['ph']
+            t = torch.tensor(st['ph'], dtype=torch.float64).reshape(shape)
+            spec['physical'] = (t[0] if nexp else t).tolist()
+            if math.isfinite(st['d']):
+                st['d'] = spec['default'] = rng.choice([0.0, 100000.004])
+        c = {'kind': 'dense_exact' if double else 'dense', 'st': PT.encode_struct(st), 'out': 'ok', 'rb': PT.encode_struct(st), 'obs': {'shape': [], 'flat': []},
+             'tag': ['json_to_weights', 'expand' if nexp else 'plain'] + (['default_dtype_float64'] if double else [])}
+        old_dt = torch.get_default_dtype()
         try:
+            if double:
+                torch.set_default_dtype(torch.float64)
             text = json.dumps(spec)
             w = formats.json_to_weights(json.loads(text))
             c['rb'] = PT.readback(w)
@@ -199,7 +248,25 @@ def drive_weight_specs(seed, n):
         except Exception as e:  # noqa
             c['out'] = 'raise:' + type(e).__name__
             c['err'] = str(e)[:150]
+        finally:
+            torch.set_default_dtype(old_dt)
         cases.append(c)
+        if double and i % 8 == 3:
+            # the same tensor given as a plain nested list under the same default dtype
+            dn = PT.build(st, torch.float64).to_dense()
+            c2 = {'kind': 'dense_exact', 'st': PT.encode_struct(st), 'out': 'ok', 'rb': PT.encode_struct(st), 'obs': {'shape': [], 'flat': []},
+                  'tag': ['json_to_weights', 'nested_list', 'default_dtype_float64']}
+            try:
+                torch.set_default_dtype(torch.float64)
+                w = formats.json_to_weights(json.loads(json.dumps(dn.tolist())))
+                c2['rb'] = PT.readback(w)
+                c2['obs'] = c06.obs_of(w)
+            except Exception as e:  # noqa
+                c2['out'] = 'raise:' + type(e).__name__
+            finally:
+                torch.set_default_dtype(old_dt)
+            if dn.numel() > 0:
+                cases.append(c2)
     return cases
 
 
@@ -207,6 +274,8 @@ def _drive(args):
     a, i, seed = args
     rng = rng_for(seed, f'c14-{i}')
     cases = [drive_rt(a)]
+    if i % 4 == 1:
+        cases.append(drive_rt(a, history=True))
     if i % 3 == 0:
         try:
             cases += drive_bad(a, rng)
